@@ -43,3 +43,7 @@ ASSUME.update({
  "C06": ["theorems cover the two caches whose incremental maintenance differs from their rebuild (attribute cache, deletes cache); every other lookup is compared live vs reloaded at every prefix by the harness only",
          "image / EXIF / media-tag lookups are not generated (no images in the worlds)", "claim dates distinct (as C07)"],
 })
+ASSUME.update({
+ "C09": ["the full ordered result is taken as the unpaged answer of the same handler (its order is checked against (time desc, ref desc) by the harness); which permanodes match is C08's business",
+         "the token is modelled as a (time, ref) pair plus the signed/unsigned reading of the time, regenerated from query.go on every run; decimal printing/parsing itself is exercised, not modelled"],
+})
